@@ -8,7 +8,8 @@ from . import C07
 
 ID = 'C11'
 PROFILES = ['dev']
-BOUNDS = {'digit rule': 'literals of 1..=6 elements, every element kind symbolic (Word / WordSuffix / Dot) under the parser\'s well-formedness (no leading suffix, no suffix right after a period), word lengths symbolic in 0..=40 (stub for word_len, which is checked separately)',
+BOUNDS = {'text level': 'through the real lexer + parser + interpreter: poetic number texts of <= 2 (thorough 3) elements out of 26 spellings (quick: all 1-element and every 4th 2-element text; thorough: all 2-element and every 8th 3-element text) (word lengths 1, 2, 3, 9, 10, 11, 20; apostrophes inside / leading / trailing; \'s / \'re suffixes; hyphens; keywords as words; capitals; non-ASCII letters), each optionally followed by a period or a comma, in `X is ...` and `Rock .. like ...`: the printed number equals the numeral the words spell (exact for integers, <= 4 ulp otherwise); `X says <text>` with 0..=2 (thorough 3) symbolic characters (any of ASCII ∪ R except line feed, quote, open parenthesis): the literal is exactly the text; 27 right-hand sides starting with a literal word / negative number are ordinary expressions',
+          'digit rule': 'literals of 1..=6 elements, every element kind symbolic (Word / WordSuffix / Dot) under the parser\'s well-formedness (no leading suffix, no suffix right after a period), word lengths symbolic in 0..=40 (stub for word_len, which is checked separately)',
           'word_len': 'words of 0..=6 symbolic characters over {a, apostrophe, é}',
           'accuracy': 'literals of 1..=3 (thorough 4) digit-bearing words, every digit symbolic 0..=9, the period at every position: |value - numeral| <= 4 ulp, exact when there is no fractional part',
           'parser admission': 'see C01/C09 token-stream harnesses (a literal reaching compute_value ill-formed is reported there)'}
@@ -160,8 +161,148 @@ def h_accuracy(vm, mir, nd, dot):
     return ck.out
 
 
+# ------------------------------------------------------------------ text level: real lexer + parser + interpreter
+WORDS = {1: 'a', 2: 'it', 3: 'ice', 9: 'rockstars', 10: 'abcdefghij', 11: 'abcdefghijk', 20: 'abcdefghijabcdefghij'}
+
+
+def poetic_elements():
+    """[(text, letters counted)] element spellings: plain words of several lengths (incl. multiples of 10), apostrophes inside / leading /
+    trailing (not counted), 's / 're suffixes (counted with their word), hyphens (count as letters), keywords as words, capitals, non-ASCII letters"""
+    el = [(w, n) for n, w in WORDS.items()]
+    el += [("don't", 4), ("rock'n'roll", 9), ("'cause", 5), ("lovin'", 5), ("rockstar's", 9), ("we're", 4), ("it's", 3), ('ice-cold', 8), ('all-consuming', 13), ('a-b', 3),
+           ('nothing', 7), ('with', 4), ('is', 2), ('taking', 6), ('Tommy', 5), ('ROCK', 4), ('éé', 2), ('mütley', 6), ('Ünder', 5)]
+    return el
+
+
+def poetic_texts(maxlen):
+    """[(text, decimal numeral as a string)]: sequences of <= maxlen elements, each optionally followed by a period or a comma"""
+    import itertools
+    el = poetic_elements(); out = []
+    first_ok = [e for e in el if e[0] not in ('nothing', 'with', 'is', 'taking')]
+    punct = ['', '.', ',']
+    for n in range(1, maxlen + 1):
+        pools = [first_ok if i == 0 else el for i in range(n)]
+        # to keep the product small, elements beyond the first two are drawn from a short list
+        pools = [p if i < 2 else [e for e in p if e[0] in ('a', 'abcdefghij', "rockstar's", 'ice-cold', 'nothing', 'éé')] for i, p in enumerate(pools)]
+        for combo in itertools.product(*pools):
+            for ps in itertools.product(punct, repeat=n):
+                words = [c[0] + p for c, p in zip(combo, ps)]
+                digits, seen_dot = '', False
+                for c, p in zip(combo, ps):
+                    digits += str(c[1] % 10)
+                    if p == '.' and not seen_dot: digits += '.'; seen_dot = True
+                out.append((' '.join(words), digits))
+    return out
+
+
+def h_poetic_text(vm, mir, cases, form):
+    """`X is <words>` / `Rock A like <words>` through the real parser and interpreter: the printed number is the numeral the words spell"""
+    from ..progrun import parse_in_vm, exec_in_vm
+    from ..std import conc
+    text, numeral = cases[vm.fork(len(cases), note='literal')] if len(cases) > 1 else cases[0]
+    src = (f'X is {text}\nsay X\n' if form == 'is' else f'Rock the list like {text}\nsay the list at 0\n')
+    d = lambda m: {'program': src, 'numeral': numeral}
+    vm.describe = d
+    out = []
+    def bad(role, detail):
+        m = model_of(vm)
+        if m is not None: out.append(finding('violation', role, detail, d(m), vm.notes))
+    vm.witness = {'text-done'}
+    r = conc(vm, parse_in_vm(vm, mir, src))
+    if r.variant == 1: bad('poetic-text:rejected', 'a well-formed poetic literal is rejected'); return out
+    res, o, _ = exec_in_vm(vm, mir, r.fields[0])
+    if conc(vm, res).variant == 1 or len(o['writes']) != 1: bad('poetic-text:run', 'the program did not print one line'); return out
+    w = o['writes'][0]; got = (w.concrete() if isinstance(w, BStr) else zstr(z3.simplify(to_sym(w)))).strip()
+    want = float(numeral)
+    try: g = float(got)
+    except ValueError: bad('poetic-text:not-a-number', f'printed {got!r}'); return out
+    exact = '.' not in numeral.rstrip('.') and want < 2 ** 53
+    import math
+    tol = 0 if exact else 4 * math.ulp(want)
+    if abs(g - want) > tol: bad('poetic-text:value', f'{text!r} printed {got}, the words spell {numeral}')
+    return out
+
+
+def h_says(vm, mir, n, pinned=()):
+    """`X says <n symbolic characters>`: the literal is exactly those characters (then the next line is a statement of its own)"""
+    from .lexcommon import sym_text, text_cex
+    from ..progrun import parse_in_vm
+    from ..std import conc
+    from .C02 import Sig
+    mid = sym_text(vm, n, name='p', pinned=pinned)
+    for c in mid.buf.cps:
+        if isinstance(c, int):
+            if c in (10, 34, 40): raise Infeasible()             # line feed ends the literal; an open quote / parenthesis swallows lines (recorded finding, outside)
+        else: vm.assume(z3.And(c != 10, c != 34, c != 40))
+    pre, post = 'X says ', '\nsay 1\n'
+    cps = [ord(c) for c in pre] + mid.buf.cps + [ord(c) for c in post]
+    text = BStr(Buf(cps, [1] * len(pre) + mid.buf.widths + [1] * len(post)))
+    d = text_cex(text); vm.describe = d
+    out = []
+    def bad(role, detail, prop=None):
+        if prop is None: m = model_of(vm)
+        else:
+            v = vm.must_hold(prop, role); m = v.model if v is not None else None
+        if m is not None: out.append(finding('violation', role, detail, d(m), vm.notes))
+    vm.witness = {'says-done'}
+    r = conc(vm, parse_in_vm(vm, mir, text))
+    if r.variant == 1: bad('says:rejected', 'a poetic string assignment is rejected'); return out
+    sg = Sig(vm, mir); st = sg.statements(r.fields[0])
+    if [k for k, _ in st] != ['PoeticAssignment', 'Output']: bad('says:statements', f'parsed as {[k for k, _ in st]}'); return out
+    pa = sg.d(st[0][1])
+    if sg.var(pa) != 'String': bad('says:kind', 'not a poetic string assignment'); return out
+    rhs = sg.f(sg.d(pa.fields[0]), 'rhs')
+    e = str_eq(vm, rhs, mid)
+    if e is False: bad('says:text', 'the literal is not the exact text after `says `')
+    elif e is not True: bad('says:text', 'the literal is not the exact text after `says `', e)
+    return out
+
+
+EXPR_RHS = [('nothing', 'null'), ('nowhere', 'null'), ('nobody', 'null'), ('gone', 'null'), ('null', 'null'), ('true', 'true'), ('right', 'true'), ('yes', 'true'), ('ok', 'true'),
+            ('false', 'false'), ('wrong', 'false'), ('no', 'false'), ('lies', 'false'), ('mysterious', 'mysterious'), ('empty', ''), ('silent', ''), ('silence', ''),
+            ('-5', '-5'), ('-0.5', '-0.5'), ('- 5', '-5'), ('5', '5'), ('"a rock"', 'a rock'), ('nothing plus 2', '2'), ('true and false', 'false'), ('-5 minus 1', '-6'), ('NOTHING', 'null'), ('Right', 'true')]
+
+
+def h_expr_rhs(vm, mir):
+    """a right-hand side that starts with a literal word or a negative number is an ordinary expression"""
+    from ..progrun import parse_in_vm, exec_in_vm
+    from ..std import conc
+    rhs, want = EXPR_RHS[vm.fork(len(EXPR_RHS), note='rhs')]
+    verb = ['is', 'are', "'s"][vm.fork(3, note='verb')]
+    src = (f"X's {rhs}\nsay X\n" if verb == "'s" else f'X {verb} {rhs}\nsay X\n')
+    d = lambda m: {'program': src, 'expected_output': want}
+    vm.describe = d
+    out = []
+    def bad(role, detail):
+        m = model_of(vm)
+        if m is not None: out.append(finding('violation', role, detail, d(m), vm.notes))
+    vm.witness = {'rhs-done'}
+    r = conc(vm, parse_in_vm(vm, mir, src))
+    if r.variant == 1: bad('expression-rhs:rejected', 'rejected'); return out
+    res, o, _ = exec_in_vm(vm, mir, r.fields[0])
+    if conc(vm, res).variant == 1 or len(o['writes']) != 1: bad('expression-rhs:run', 'the program did not print one line'); return out
+    w = o['writes'][0]; got = (w.concrete() if isinstance(w, BStr) else zstr(z3.simplify(to_sym(w))))
+    if got != want + '\n': bad('expression-rhs:value', f'{src.splitlines()[0]!r} gives {got!r}, an ordinary expression gives {want!r}')
+    return out
+
+
 def jobs(ctx, tier):
     mir = ctx.mir('dev'); js = []
+    from ..progen import chunks
+    # quick: all 1-element texts and every 4th 2-element text (deterministic stride); thorough: all 2-element and every 8th 3-element text
+    texts = (poetic_texts(1) + poetic_texts(2)[66::4]) if tier == 'quick' else (poetic_texts(2) + poetic_texts(3)[5214::8])
+    for k, ch in enumerate(chunks(texts, 80)):
+        js.append(Job(f'text/is/{k}', h_poetic_text, (mir, ch, 'is'), witness=['text-done'], str_mode='bounded', fuel=20_000_000, weight=20))
+    for k, ch in enumerate(chunks(texts[::7], 80)):
+        js.append(Job(f'text/like/{k}', h_poetic_text, (mir, ch, 'like'), witness=['text-done'], str_mode='bounded', fuel=20_000_000, weight=20))
+    from .lexcommon import CLASS_NAMES
+    import itertools
+    for n in range(0, 4 if tier == 'thorough' else 3):
+        if n < 2: js.append(Job(f'says/{n}', h_says, (mir, n), witness=['says-done'], str_mode='bounded', fuel=20_000_000, weight=10 ** n))
+        else:
+            for pin in itertools.product([c for c in CLASS_NAMES if c not in ('lf', 'quote', 'lparen')], repeat=n - 1):
+                js.append(Job(f'says/{n}/' + '+'.join(pin), h_says, (mir, n, pin), witness=['says-done'], str_mode='bounded', fuel=20_000_000, weight=30))
+    js.append(Job('expression-rhs', h_expr_rhs, (mir,), witness=['rhs-done'], str_mode='bounded', fuel=20_000_000, weight=20))
     for n in range(1, 7): js.append(Job(f'digit-rule/{n}', h_rule, (mir, n), witness=['rule-done'], weight=n))
     js.append(Job('word_len', h_wordlen, (mir,), witness=['wordlen-done'], str_mode='bounded', weight=3))
     maxd = 4 if tier == 'thorough' else 3
@@ -224,6 +365,26 @@ def replay(ctx, f):
     cex = f.get('cex') or {}
     out = {'reproduced': None}
     res = {}
+    if 'program' in cex or 'text' in cex:
+        import math
+        for prof in ('dev', 'release'):
+            nat = ctx.native(prof)
+            if 'program' in cex:
+                nv = nat.call({'op': 'program', 'src': cex['program'], 'stdin': ''}, timeout=20)
+                got = (nv.get('stdout') or '')
+                out[prof + '_native'] = {k: nv.get(k) for k in ('parse', 'result', 'stdout')}
+                if 'numeral' in cex:
+                    try: g = float(got.strip()); want = float(cex['numeral']); res[prof] = abs(g - want) > 4 * math.ulp(want)
+                    except ValueError: res[prof] = True
+                else: res[prof] = got != cex.get('expected_output', '') + '\n'
+            else:
+                # `X says <text>`: run `X says <text>` + say X natively and compare with the text
+                t = cex['text']; line = t.split('\n')[0]
+                nv = nat.call({'op': 'program', 'src': line + '\nsay X\n', 'stdin': ''}, timeout=20)
+                out[prof + '_native'] = {k: nv.get(k) for k in ('parse', 'result', 'stdout')}
+                res[prof] = nv.get('stdout') != line[len('X says '):] + '\n'
+        out.update(res); out['reproduced'] = any(res.values())
+        return out
     for prof in ('dev', 'release'):
         nat = ctx.native(prof)
         if 'word' in cex:
